@@ -17,7 +17,7 @@ MANIFEST = dict(
          "property EveryCallStarts for all arrival patterns / limits / periods / cancellations of waiting callers "
          "within the bounds; every controlled edge (arrive, tick, function end with value or exception, cancel a "
          "waiting caller) is replayed into the real throttle on the virtual loop and the start log + per-caller "
-         "outcomes compared with the model.",
+         "outcomes compared with the model. Also: calls arriving at the very instant a window slot frees (TickArrive), after the sleeper was woken and before the call that is handed the lock runs on.",
     technique="TLA+ spec + TLC exhaustive model checking incl. liveness; edge-complete graph replay with internal-"
               "action closure into the implementation in exact virtual time",
     design="5/C15")
